@@ -643,6 +643,11 @@ func (w *responseWriter) synthesise(orig *dns.Msg) (*dns.Msg, error) {
 	if negTTL := negativeAAAATTL(orig); negTTL > 0 {
 		ttl = negTTL
 	}
+	if zeroNegativeAAAATTL(orig) {
+		// RFC 2308: the negative TTL is min(SOA TTL, SOA MINIMUM). A zero
+		// there is a real bound ("do not cache"), not a missing SOA.
+		ttl = 0
+	}
 	for _, a := range addresses {
 		if a.Hdr.Ttl < ttl {
 			ttl = a.Hdr.Ttl
@@ -908,6 +913,18 @@ func negativeAAAATTL(m *dns.Msg) uint32 {
 		}
 	}
 	return 0
+}
+
+// zeroNegativeAAAATTL reports whether the original AAAA response carries a
+// SOA whose TTL or MINIMUM is zero, i.e. a negative-cache TTL of zero.
+// negativeAAAATTL folds that case into its "no SOA" zero.
+func zeroNegativeAAAATTL(m *dns.Msg) bool {
+	for _, rr := range m.Ns {
+		if soa, ok := rr.(*dns.SOA); ok {
+			return soa.Hdr.Ttl == 0 || soa.Minttl == 0
+		}
+	}
+	return false
 }
 
 // classifyQueryErr collapses queryer errors to a small label set so
